@@ -169,12 +169,20 @@ def uploads (tr : List Ev) (i : Nat) (c : Content) : Nat := tr.countP (Ev.isUplo
 /-- how often a worker of command `i` observed chunk `c` absent -/
 def absents (tr : List Ev) (i : Nat) (c : Content) : Nat := tr.countP (Ev.isAbsent i c)
 
-/-- the sequential schedule of one command with one busy worker at a time: `exists`, upload if absent, next chunk; then commit -/
-def seqTrace (i : Nat) (cmd : SnapCmd) (s : Store) : List Ev :=
-  let r := cmd.stream.foldl (fun (acc : Store × List Ev) c =>
-    if (get acc.1 (.chunk cmd.u.fam c)).isSome then (acc.1, acc.2 ++ [.exists i c true])
-    else (put acc.1 (.chunk cmd.u.fam c) (.chunk cmd.u.fam c),
-          acc.2 ++ [.exists i c false, .upload i (.chunk cmd.u.fam c) (.chunk cmd.u.fam c)])) (s, [])
-  r.2 ++ [.commit i]
+/-! ## the sequential schedule: one command after the other, one busy worker at a time -/
+
+/-- `exists`, upload if absent, next chunk -/
+def seqEvents (i : Nat) (f : Fam) : Store → List Content → List Ev
+  | _, [] => []
+  | s, c :: cs =>
+    if (get s (.chunk f c)).isSome then .exists i c true :: seqEvents i f s cs
+    else .exists i c false :: .upload i (.chunk f c) (.chunk f c) :: seqEvents i f (put s (.chunk f c) (.chunk f c)) cs
+
+def seqTrace (i : Nat) (cmd : SnapCmd) (s : Store) : List Ev := seqEvents i cmd.u.fam s cmd.stream ++ [.commit i]
+
+/-- the commands `rest` (numbered from `i`) one after the other, starting in store `s` -/
+def seqTraceAll : Nat → Store → List SnapCmd → List Ev
+  | _, _, [] => []
+  | i, s, cmd :: rest => seqTrace i cmd s ++ seqTraceAll (i + 1) (snapshot cmd.u cmd.stream cmd.files cmd.ts cmd.sid s).1 rest
 
 end Replicat.Repo
